@@ -32,3 +32,7 @@ def run(ctx):
     for d in (ctx.rules, ctx.floors):
         for k in [k for k in d if k not in KEEP]:
             del d[k]
+
+
+from .extra import with_extra  # noqa: E402
+run = with_extra('C06', run)
